@@ -44,7 +44,7 @@ class Module:
 
 def _is_literalish(node):
     ok = (ast.Constant, ast.List, ast.Tuple, ast.Dict, ast.Name, ast.UnaryOp, ast.BinOp, ast.USub, ast.UAdd, ast.Add, ast.Sub,
-          ast.Mult, ast.Div, ast.Load, ast.Set)
+          ast.Mult, ast.Div, ast.Load, ast.Set, ast.Attribute, ast.Pow, ast.FloorDiv, ast.Mod)      # Attribute: members of the Enum classes evaluated above
     return all(isinstance(x, ok) for x in ast.walk(node))
 
 
